@@ -161,8 +161,8 @@ pub fn plan(is_read: bool, len: usize) -> Result<usize, io::Error> {
         // watchdog: no scenario needs anywhere near this many I/O calls; a loop that retries forever
         // (e.g. re-sending a whole buffer after every interruption) is ended with a plain error
         p.served += 1;
-        if p.served > 8_000_000 {
-            return Err(io::Error::new(io::ErrorKind::Other, "watchdog: runaway I/O loop (more than 8 million calls in one scenario)"));
+        if p.served > 40_000_000 {
+            return Err(io::Error::new(io::ErrorKind::Other, "watchdog: runaway I/O loop (more than 40 million calls in one scenario)"));
         }
         let sched = if is_read { p.read.clone() } else { p.write.clone() };
         let n = match sched {
